@@ -10,6 +10,7 @@
 //!        | (F j)    the closure of job j returns (the peer closes the connection)
 //!        | (X j)    that worker decrements the busy counter and goes back to `recv`
 //!        | P        the acceptor drops the pool (Terminate per worker, join)
+//!        | (W ms)   nothing happens for ms milliseconds (real time)
 //! Abstract job ids count the E steps; jobs are interchangeable, the harness maps
 //! them to the closures that actually start.
 //!
@@ -43,7 +44,9 @@ struct Ctl {
     cv: Condvar,
 }
 
-const AUTO: [&str; 5] = ["worker-spawned", "execute-done", "busy-inc", "busy-dec", "terminate"];
+// ("terminate" is held until the clean-up: in the code as it is a worker only gets there after the pool
+// was dropped, and a worker that decides to leave at any other time stays visible as a parked one)
+const AUTO: [&str; 4] = ["worker-spawned", "execute-done", "busy-inc", "busy-dec"];
 
 impl Ctl {
     fn probe(&self, ev: &'static str, val: usize) {
@@ -293,6 +296,10 @@ fn run_schedule(initial: usize, max: usize, steps: &[Sx]) -> Sx {
                     idle_workers += 1;
                 }
             }
+            "W" => {
+                enabled = true;
+                thread::sleep(Duration::from_millis(arg as u64));
+            }
             "P" => {
                 if !acc_sent && !dropped {
                     enabled = true;
@@ -486,6 +493,27 @@ impl Suite for PoolSuite {
                     steps.push(step_sx("S", Some(j)));
                 }
                 cases.push(Case { input: mk_case(initial, max, steps), tags: vec!["burst".into(), format!("cfg:{}x{}", initial, max)] });
+            }
+        }
+        if ctx.thorough {
+            // a long quiet period with surplus workers idle, then another connection: it must be picked up
+            // (a pool that lets idle workers go must not leave the newcomer waiting)
+            for (initial, max) in [(1usize, 3usize), (2, 4)] {
+                let mut steps = Vec::new();
+                for j in 0..max {
+                    steps.push(step_sx("E", None));
+                    steps.push(step_sx("G", None));
+                    steps.push(step_sx("D", None));
+                    steps.push(step_sx("S", Some(j)));
+                }
+                steps.push(step_sx("F", Some(max - 1)));
+                steps.push(step_sx("X", Some(max - 1)));
+                steps.push(step_sx("W", Some(10_600)));
+                steps.push(step_sx("E", None));
+                steps.push(step_sx("G", None));
+                steps.push(step_sx("D", None));
+                steps.push(step_sx("S", Some(max)));
+                cases.push(Case { input: mk_case(initial, max, steps), tags: vec!["long-idle-gap".into(), format!("cfg:{}x{}", initial, max)] });
             }
         }
         let n = if ctx.thorough { 5000 } else { 90 };
